@@ -249,6 +249,8 @@ def classify(r):
     out = []
     t = r.get("target")
     alias = [a for a in r.get("alias", []) if a["cls"] != "benign-same-typed-value"]
+    if not any(p.get("text") for p in r.get("prints", [])):
+        alias = []  # nothing was emitted
     for a in alias:
         out.append((f"alias:{a['cls']}", f"distinct sub-expressions {a['kinds']} share the variable `{a['ref']}`"))
     stream = r.get("stream", "")
@@ -301,6 +303,9 @@ def classify(r):
             out.append(("python:constants-not-cast-to-like-type", "integer-valued constant of float type printed as an int literal: " + m["why"]))
         elif ex.get("attrib") == "cpp-constant-printed-untyped":
             out.append(("cpp:constants-printed-untyped:value-differs", "float constant printed as a double/int literal (arithmetic carried out in another type): " + m["why"]))
+        elif t == "numpy" and "AssertionError" in m["why"] and "dtype(" in m["why"] and all(mm["debug"] >= 1 for mm in ex["mismatches"]):
+            out.append(("numpy:debug1:dtype-assertion-fails:static-type-differs-from-runtime-dtype",
+                        "the debug>=1 dtype assertion fails although debug 0 returns the bits of direct evaluation (Expr.get_type disagrees with NumPy promotion, e.g. copysign(x32, y64), Python max/min of mixed dtypes; see C08): " + m["why"]))
         elif "NameError" in m["why"] and t == "python" and INF_NAME.search(text0):
             out.append(("python:make_constant:inf-nan-printed-as-bare-name", "float constant inf/nan printed as the bare name `inf`/`nan`: " + m["why"]))
         else:
@@ -358,6 +363,7 @@ def build_cases(ctx, tables):
         pairs = c05_gen.generate(rng, t, declared(tables, t), consts, 2 * ctx.scale(25, 200), prefix=f"r_{t}_")
         for a, b in zip(pairs[0::2], pairs[1::2]):
             b["stream"] = "reuse"
+            b["refs"] = {}  # explicit references would mutate props of nodes shared with the function printed before
             cases.append(dict(id=b["name"], kind="recipe", recipe=b, prelude=a))
     cases.extend(history_cases(rng, ctx.scale(300, 3000)))
     return cases
